@@ -800,6 +800,10 @@ func (w *worker) Run(ctx context.Context, req taskRunRequest, reply *taskRunRepl
 	}
 	task.state = TaskRunning
 	task.Unlock()
+	// The scope holds the metrics of this run only: a task that is run
+	// again (after it was lost or discarded) must not report the
+	// increments of its earlier runs, too.
+	task.Scope.Reset(nil)
 	// Gather inputs from the bigmachine cluster, dialing machines
 	// as necessary.
 	var (
